@@ -644,12 +644,15 @@ def render_runner(flows, scen, concs):
          'var fns = map[string]func(*gen.Exec, int) ([]string, error){']
     for f in flows:
         L.append('\t"%s": gen.%s,' % (f.name(), f.name()))
-    L += ['}', '', 'func main() {', '\tenc := json.NewEncoder(os.Stdout)', '\tbase := runtime.NumGoroutine()', '\tvar plan []run',
+    L += ['}', '', 'func main() {', '\tenc := json.NewEncoder(os.Stdout)', '\tbase := runtime.NumGoroutine()', '\tleakSeen := false', '\tvar plan []run',
           '\tif err := json.NewDecoder(os.Stdin).Decode(&plan); err != nil {', '\t\tpanic(err)', '\t}',
           '\tfor _, p := range plan {', '\t\tfmt.Fprintf(os.Stderr, "RUN %s %s %d\\n", p.Flow, p.Label, p.Conc)',
           '\t\tx := gen.NewExec(p.Scenario, p.Sleeps)', '\t\tif p.Precancel {', '\t\t\tx.Cancel()', '\t\t}', '\t\tres, err := fns[p.Flow](x, p.Conc)',
           '\t\tp.Quiesced = x.Quiesce()',
           '\t\tfor i := 0; i < 3000 && runtime.NumGoroutine() > base; i++ {', '\t\t\ttime.Sleep(500 * time.Microsecond)', '\t\t}',
+          '\t\t// still above the baseline: a leak, or a slow machine - wait much longer before the first verdict',
+          '\t\tfor i := 0; !leakSeen && i < 400 && runtime.NumGoroutine() > base; i++ {', '\t\t\ttime.Sleep(50 * time.Millisecond)', '\t\t}',
+          '\t\tif runtime.NumGoroutine() > base {', '\t\t\tleakSeen = true', '\t\t}',
           '\t\tp.Leaked = runtime.NumGoroutine() - base', '\t\tbase = runtime.NumGoroutine()',
           '\t\tp.Err = gen.ErrClass(err)', '\t\tp.Results = res', '\t\tp.Calls = x.SortedCalls()',
           '\t\tvar argseq []int64',
